@@ -596,6 +596,14 @@ def run(chk):
             nl11 += 1
             chk.ob("C07-D11.limits", o["function"], o["construct"], o["ok"], o["where"], o["detail"], o["expected"])
     chk.floor("C07-D11.limits", nl11, 4, "limit stores of the refinement methods (shared with C08)")
+    chk.rule("C07-D12.child", "the classic criterion proposes children within the level limits: every child index appended by addChildLimited (Local Polynomial, Wavelet) is guarded by a "
+                              "comparison of the level of that same index with the limit (obligations of C08-D7.child)")
+    nl12 = 0
+    for o in sub8.obls:
+        if o["rule"] == "C08-D7.child":
+            nl12 += 1
+            chk.ob("C07-D12.child", o["function"], o["construct"], o["ok"], o["where"], o["detail"], o["expected"])
+    chk.floor("C07-D12.child", nl12, 7, "appends of a child index under level limits (shared with C08)")
 
     # ------------------------------------------------------------------ D10 "all outputs" is an accumulation over the outputs
     chk.rule("C07-D10.alloutputs", "where the decision for one point is taken over all outputs (a boolean local that is set before a loop over the outputs and assigned inside it), the "
